@@ -113,12 +113,17 @@ pub fn stack_guard() {
     let mut s = StackCoder::<u8, Vec<u8>>::with_bit_capacity(32);
     let mut i = 0; while i < n { s.write_bit(b0[i]).unwrap(); i += 1; }
     let (spec, nw) = spec_words(&b0, n, true);
+    // independent assertion groups (kx::group): 0 what the view shows, 1 the coder after the view is dropped
+    let grp = group(2);
     {
         let g = s.get_compressed();
-        assert!(g.len() == nw, "C08: StackCoder guard shows a different number of words than exporting would");
-        let mut i = 0; while i < nw { assert!(g[i] == spec[i], "C08: StackCoder guard view differs from the export"); i += 1; }
+        if grp == 0 {
+            assert!(g.len() == nw, "C08: StackCoder guard shows a different number of words than exporting would");
+            let mut i = 0; while i < nw { assert!(g[i] == spec[i], "C08: StackCoder guard view differs from the export"); i += 1; }
+        }
     }
-    assert!(s.len() == n, "C08/C18: inspecting changed the stack length");
+    if grp == 0 { return; }
+    assert!(s.len() == n, "C08/C18/C16: inspecting changed the stack length");
     let x: bool = any();
     s.write_bit(x).unwrap();
     let mut b = b0; b[n] = x;
@@ -169,11 +174,15 @@ pub fn queue_guard() {
     let mut q = QueueEncoder::<u8, Vec<u8>>::with_bit_capacity(32);
     let mut i = 0; while i < n { q.write_bit(b0[i]).unwrap(); i += 1; }
     let (spec, nw) = spec_words(&b0, n, false);
+    let grp = group(2);
     {
         let g = q.get_compressed();
-        assert!(g.len() == nw, "C08: QueueEncoder guard shows a different number of words than exporting would");
-        let mut i = 0; while i < nw { assert!(g[i] == spec[i], "C08: QueueEncoder guard view differs from the export"); i += 1; }
+        if grp == 0 {
+            assert!(g.len() == nw, "C08: QueueEncoder guard shows a different number of words than exporting would");
+            let mut i = 0; while i < nw { assert!(g[i] == spec[i], "C08: QueueEncoder guard view differs from the export"); i += 1; }
+        }
     }
+    if grp == 0 { return; }
     let x: bool = any();
     q.write_bit(x).unwrap();
     let mut b = b0; b[n] = x;
